@@ -43,7 +43,8 @@ RULE = ('one PRNG; a case is a random mesh (ring with chords / grid / random con
         'different partners, vectors repeated 2-7 times with permuted ids; ~15 % are one vector of 2-3 requests on a '
         'triangle / square (+ diagonal) / 5-ring where each request has its own STRICT, LOOSE or mixed include list '
         '(a STRICT detour colliding with the partner\'s only route next to a partner missing only a LOOSE hop), both '
-        'orders inside the vector; ~6 % long rings (12-14 ROADMs, 2-5 spans per link) whose only disjoint alternative is '
+        'orders inside the vector; ~7 % pairs/triples between the same ROADMs competing for ONE include element (first '
+        'LOOSE, later STRICT, and reversed); ~6 % long rings (12-14 ROADMs, 2-5 spans per link) whose only disjoint alternative is '
         '75-85 elements long (the 80-hop cut-off from both sides); 15 % of the random meshes have a PARALLEL link (links '
         'are identified by OMS); link-only / node-only disjointness flags and vectors of one request now and then. Non-trivial = some vector has a '
         'request with at least two candidate paths.')
@@ -253,6 +254,41 @@ def gen_long_ring(rng, tier):
     return {'kind': 'disj', 'mesh': mesh, 'reqs': reqs, 'sync': [rng.sample([0, 1], 2)], 'via': 'dsjctn'}
 
 
+def gen_compete(rng, tier):
+    """two (or three) requests of ONE vector between the same ROADMs that compete for the same include element, which only
+    one of them can have because they must be disjoint: the FIRST-listed request names it as a LOOSE hop, a LATER one as a
+    STRICT hop (and the other way round now and then).  The STRICT request must be routed across the element (the LOOSE
+    wish of the other is dropped) - or the computation stops; a returned route never ignores a STRICT hop."""
+    shape = rng.choice(['three-routes', 'three-routes', 'square+diag', 'four-routes'])
+    if shape == 'square+diag':
+        n, pairs, s, t, mids = 4, [(0, 1), (1, 2), (2, 3), (0, 3), (0, 2)], 0, 2, [1, 3]
+    elif shape == 'three-routes':
+        n, pairs, s, t, mids = 4, [(0, 1), (0, 2), (2, 1), (0, 3), (3, 1)], 0, 1, [2, 3]
+    else:
+        n, pairs, s, t, mids = 5, [(0, 1), (0, 2), (2, 1), (0, 3), (3, 1), (0, 4), (4, 1)], 0, 1, [2, 3, 4]
+    km = lambda: rng.choice([40, 50, 60, 70, 80, 100])          # noqa: E731
+    links = []
+    for a, b in pairs:
+        x = km()
+        links.append([a, b, [x], [x], 'plain'])
+    mesh = {'n': n, 'links': links}
+    if rng.random() < 0.3:
+        s, t = t, s
+    m = rng.choice(mids)
+    item = rng.choice([['R', m], ['L', s, m, 0.5] if (min(s, m), max(s, m)) in [tuple(sorted(p)) for p in pairs] else ['R', m],
+                       ['L', m, t, round(rng.random() * 0.99, 3)], ['L', m, t, 0.5]])
+    first, later = (L, S) if rng.random() < 0.75 else (S, L)
+    reqs = [{'id': 0, 'src': ['T', s], 'dst': ['T', t], 'inc': [[list(item), first]], 'bidir': False, 'mode': 'mode 1'},
+            {'id': 1, 'src': ['T', s], 'dst': ['T', t], 'inc': [[list(item), later]], 'bidir': False, 'mode': 'mode 1'}]
+    if rng.random() < 0.25:
+        reqs.append({'id': 2, 'src': ['T', s], 'dst': ['T', t], 'bidir': False, 'mode': 'mode 1',
+                     'inc': [] if rng.random() < 0.5 else [[list(item), rng.choice([S, L])]]})
+    order = list(range(len(reqs)))
+    if rng.random() < 0.2:
+        rng.shuffle(order)
+    return {'kind': 'disj', 'mesh': mesh, 'reqs': reqs, 'sync': [order], 'via': 'dsjctn'}
+
+
 def gen(rng, tier, widen=False):
     case = gen0(rng, tier, widen)
     r = rng.random()
@@ -267,7 +303,9 @@ def gen0(rng, tier, widen=False):
     r = rng.random()
     if r > 0.94:
         return gen_long_ring(rng, tier)
-    if r > (0.75 if widen else 0.85):
+    if r > (0.80 if widen else 0.87):
+        return gen_compete(rng, tier)
+    if r > (0.65 if widen else 0.75):
         return gen_strict_loose(rng, tier)
     if r < (0.4 if widen else 0.2):
         return gen_overlap(rng, tier)
